@@ -21,19 +21,41 @@ Inductive expr :=
 | EStart (s : side) (d : dim)            (* <range>.<dim>.start *)
 | EStop (s : side) (d : dim)             (* <range>.<dim>.stop *)
 | EBound (b : bound)                     (* rows / cols / readout_times *)
-| ESub (a b : expr).                     (* a - b *)
+| ESub (a b : expr)                      (* a - b *)
+| ERStart (s : side) (d : dim) (b : bound)   (* _bounds(<range>.<dim>, b)[0]: start, 0 when absent *)
+| ERStop (s : side) (d : dim) (b : bound)    (* _bounds(<range>.<dim>, b)[1]: stop, b when absent *)
+| EConst (z : Z).
 Inductive cmp := CEq | CNe | CLe | CLt | CGe | CGt.
 Inductive pre := PAlways | PBoth3D.      (* isinstance(target, FitRange3D) and isinstance(out, FitRange3D) and ... *)
 Inductive guard :=
 | GCmp (p : pre) (neg : bool) (a : expr) (c : cmp) (b : expr)   (* if p and [not] (a c b): raise ValueError *)
 | GNone (b : bound).                                            (* if b is None: raise ValueError *)
 
-Record checker := { out_guards : list guard; check2d : list guard; check3d : list guard }.
+(* target_first: check_fit_ranges validates the target range before it compares the two ranges *)
+Record checker := { out_guards : list guard; check2d : list guard; check3d : list guard; target_first : bool }.
 
-(* The table of the unchanged tree (what translator/c11.py extracts from it).  The theorems of
-   Proofs/FitnessChecker.v are about this table; Properties/C11.v shows that the regenerated
-   table is this one. *)
+(* not 0 <= start <= stop <= size, as three guards (the chained comparison short-circuits the same way) *)
+Definition tgt_block (d : dim) (b : bound) : list guard :=
+  [ GCmp PAlways true (EConst 0) CLe (ERStart Tgt d b);
+    GCmp PAlways true (ERStart Tgt d b) CLe (ERStop Tgt d b);
+    GCmp PAlways true (ERStop Tgt d b) CLe (EBound b) ].
+(* _length(<range>.<dim>, b) *)
+Definition elen (s : side) (d : dim) (b : bound) : expr := ESub (ERStop s d b) (ERStart s d b).
+Definition len_guard (p : pre) (d : dim) (b : bound) : guard := GCmp p false (elen Tgt d b) CNe (elen Out d b).
+
+(* The table of the tree as repaired (fix: fit ranges compared by length, bounds validated, absent
+   components resolved) = what translator/c11.py extracts from it.  The theorems of
+   Proofs/FitnessChecker.v are about this table; Properties/C11.v shows that the regenerated table
+   is this one. *)
 Definition coded_checker : checker :=
+  {| out_guards := [ len_guard PBoth3D DTime BTimes; len_guard PAlways DRow BRows; len_guard PAlways DCol BCols ];
+     check2d := tgt_block DRow BRows ++ tgt_block DCol BCols;
+     check3d := tgt_block DRow BRows ++ tgt_block DCol BCols ++ [GNone BTimes] ++ tgt_block DTime BTimes;
+     target_first := true |}.
+
+(* The table of the tree before that repair (end points compared instead of lengths, absent
+   components not handled): kept for the witnesses of what the repair removed. *)
+Definition legacy_checker : checker :=
   {| out_guards := [ GCmp PBoth3D false (EStop Tgt DTime) CNe (EStop Out DTime);
                      GCmp PAlways false (EStop Tgt DRow) CNe (EStop Out DRow);
                      GCmp PAlways false (EStop Tgt DCol) CNe (EStop Out DCol) ];
@@ -42,7 +64,8 @@ Definition coded_checker : checker :=
      check3d := [ GCmp PAlways true (EStop Tgt DRow) CLe (EBound BRows);
                   GCmp PAlways true (EStop Tgt DCol) CLe (EBound BCols);
                   GNone BTimes;
-                  GCmp PAlways true (EStop Tgt DTime) CLe (EBound BTimes) ] |}.
+                  GCmp PAlways true (EStop Tgt DTime) CLe (EBound BTimes) ];
+     target_first := false |}.
 
 (* Python values met by the comparisons *)
 Inductive pv := PNone | PInt (z : Z) | PErr.     (* PErr: AttributeError / TypeError while evaluating *)
@@ -60,6 +83,11 @@ Definition pv_of (o : option Z) : pv := match o with Some z => PInt z | None => 
 Definition side_range (e : env) (s : side) : option fitrange :=
   match s with Tgt => Some (e_tgt e) | Out => e_out e end.
 
+Definition dflt (d : Z) (o : option Z) : Z := match o with Some z => z | None => d end.
+
+Definition bound_pv (e : env) (b : bound) : pv :=
+  match b with BRows => PInt (e_rows e) | BCols => PInt (e_cols e) | BTimes => pv_of (e_times e) end.
+
 Fixpoint eval (e : env) (x : expr) : pv :=
   match x with
   | EStart s d => match side_range e s with
@@ -68,10 +96,17 @@ Fixpoint eval (e : env) (x : expr) : pv :=
   | EStop s d => match side_range e s with
                  | Some r => match get_sl r d with Some p => pv_of (snd p) | None => PErr end
                  | None => PErr end
-  | EBound BRows => PInt (e_rows e)
-  | EBound BCols => PInt (e_cols e)
-  | EBound BTimes => pv_of (e_times e)
+  | EBound b => bound_pv e b
   | ESub a b => match eval e a, eval e b with PInt x, PInt y => PInt (x - y) | _, _ => PErr end
+  | ERStart s d _ => match side_range e s with
+                     | Some r => match get_sl r d with Some p => PInt (dflt 0 (fst p)) | None => PErr end
+                     | None => PErr end
+  | ERStop s d b => match side_range e s with
+                    | Some r => match get_sl r d with
+                                | Some p => match snd p with Some z => PInt z | None => bound_pv e b end
+                                | None => PErr end
+                    | None => PErr end
+  | EConst z => PInt z
   end.
 
 (* None = the comparison raises (TypeError: '<=' not supported between NoneType and int) *)
@@ -121,19 +156,16 @@ Definition check (ck : checker) (t o : option fitrange) (rows cols : Z) (times :
   | None => Accept                                      (* if not target_fit_range: return *)
   | Some tm =>
       let e := {| e_tgt := tm; e_out := o; e_rows := rows; e_cols := cols; e_times := times |} in
-      match (match o with Some _ => run_guards e (out_guards ck) | None => None end) with
+      let og := match o with Some _ => run_guards e (out_guards ck) | None => None end in
+      let tg := run_guards e (if is3d tm then check3d ck else check2d ck) in
+      match (if target_first ck then tg else og) with
       | Some r => r
-      | None =>
-          match run_guards e (if is3d tm then check3d ck else check2d ck) with
-          | Some r => r
-          | None => Accept
-          end
+      | None => match (if target_first ck then og else tg) with Some r => r | None => Accept end
       end
   end.
 
 (* ---- the specification: equal extents in every compared dimension, target range inside the target *)
 
-Definition dflt (d : Z) (o : option Z) : Z := match o with Some z => z | None => d end.
 Definition resolve (n : Z) (s : sl) : Z * Z := (dflt 0 (fst s), dflt n (snd s)).
 
 Definition dim_ok (n : Z) (t o : sl) : bool :=
@@ -163,21 +195,6 @@ Definition wf_sl (s : sl) : bool :=
 Definition wf_range (r : fitrange) : bool :=
   match r with FR2 a b => wf_sl a && wf_sl b | FR3 t a b => wf_sl t && wf_sl a && wf_sl b end.
 Definition wf_times (t : option Z) : bool := match t with Some n => 0 <=? n | None => true end.
-
-(* hypotheses of the partial theorem: every compared stop is given, and result and target ranges
-   start at the same index in every compared dimension *)
-Definition stop_given (s : sl) : bool := match snd s with Some _ => true | None => false end.
-Definition same_start (t o : sl) : bool := dflt 0 (fst t) =? dflt 0 (fst o).
-Definition anchored (t o : fitrange) : bool :=
-  match t, o with
-  | FR2 tr tc, FR3 _ orow ocol =>
-      stop_given tr && stop_given tc && stop_given orow && stop_given ocol
-      && same_start tr orow && same_start tc ocol
-  | FR3 tm tr tc, FR3 ot orow ocol =>
-      stop_given tm && stop_given tr && stop_given tc && stop_given ot && stop_given orow && stop_given ocol
-      && same_start tm ot && same_start tr orow && same_start tc ocol
-  | _, _ => false
-  end.
 
 Definition in_domain (t o : fitrange) (rows cols : Z) (times : option Z) : bool :=
   wf_range t && wf_range o && is3d o && (0 <=? rows) && (0 <=? cols) && wf_times times.
